@@ -39,6 +39,81 @@ pub open spec fn sel_nonterminals(items: Seq<FileItem>) -> Seq<FileItem>
     }
 }
 
+/// every selected declaration is an item of the file
+pub proof fn lemma_sel_terminals_in(items: Seq<FileItem>, j: int)
+    requires 0 <= j < sel_terminals(items).len()
+    ensures exists|i: int| 0 <= i < items.len() && (#[trigger] items[i]) is Terminal && items[i]->Terminal_0 == sel_terminals(items)[j]
+    decreases items.len()
+{
+    if items.len() > 0 {
+        let pre = items.drop_last();
+        let n1 = items.len() - 1;
+        assert(items.last() == items[n1]);
+        if j < sel_terminals(pre).len() {
+            lemma_sel_terminals_in(pre, j);
+            let i = choose|i: int| 0 <= i < pre.len() && (#[trigger] pre[i]) is Terminal && pre[i]->Terminal_0 == sel_terminals(pre)[j];
+            assert(items[i] == pre[i]);
+        } else { assert(items[n1] is Terminal && items[n1]->Terminal_0 == sel_terminals(items)[j]); }
+    }
+}
+pub proof fn lemma_sel_starts_in(items: Seq<FileItem>, j: int)
+    requires 0 <= j < sel_starts(items).len()
+    ensures exists|i: int| 0 <= i < items.len() && (#[trigger] items[i]) is Start && items[i]->Start_0 == sel_starts(items)[j]
+    decreases items.len()
+{
+    if items.len() > 0 {
+        let pre = items.drop_last();
+        let n1 = items.len() - 1;
+        assert(items.last() == items[n1]);
+        if j < sel_starts(pre).len() {
+            lemma_sel_starts_in(pre, j);
+            let i = choose|i: int| 0 <= i < pre.len() && (#[trigger] pre[i]) is Start && pre[i]->Start_0 == sel_starts(pre)[j];
+            assert(items[i] == pre[i]);
+        } else { assert(items[n1] is Start && items[n1]->Start_0 == sel_starts(items)[j]); }
+    }
+}
+/// the selected nonterminal declarations are exactly the struct / enum items, in order: sel_nonterminals(items)[nt_rank(items, i)] == items[i]
+pub open spec fn nt_rank(items: Seq<FileItem>, i: int) -> int { sel_nonterminals(items.take(i)).len() as int }
+pub proof fn lemma_sel_nonterminals_take(items: Seq<FileItem>, k: int)
+    requires 0 <= k < items.len()
+    ensures sel_nonterminals(items.take(k + 1)) == (if item_is_nt(items[k]) { sel_nonterminals(items.take(k)).push(items[k]) } else { sel_nonterminals(items.take(k)) })
+{
+    assert(items.take(k + 1).drop_last() =~= items.take(k));
+    assert(items.take(k + 1).last() == items[k]);
+}
+pub proof fn lemma_sel_nonterminals_in(items: Seq<FileItem>, j: int)
+    requires 0 <= j < sel_nonterminals(items).len()
+    ensures exists|i: int| 0 <= i < items.len() && item_is_nt(#[trigger] items[i]) && items[i] == sel_nonterminals(items)[j]
+    decreases items.len()
+{
+    if items.len() > 0 {
+        let pre = items.drop_last();
+        let n1 = items.len() - 1;
+        assert(items.last() == items[n1]);
+        if j < sel_nonterminals(pre).len() {
+            lemma_sel_nonterminals_in(pre, j);
+            let i = choose|i: int| 0 <= i < pre.len() && item_is_nt(#[trigger] pre[i]) && pre[i] == sel_nonterminals(pre)[j];
+            assert(items[i] == pre[i]);
+        } else { assert(item_is_nt(items[n1]) && items[n1] == sel_nonterminals(items)[j]); }
+    }
+}
+pub proof fn lemma_sel_nonterminals_has(items: Seq<FileItem>, i: int)
+    requires 0 <= i < items.len(), item_is_nt(items[i])
+    ensures exists|j: int| 0 <= j < sel_nonterminals(items).len() && #[trigger] sel_nonterminals(items)[j] == items[i]
+    decreases items.len()
+{
+    let pre = items.drop_last();
+    let n1 = items.len() - 1;
+    assert(items.last() == items[n1]);
+    if i < n1 {
+        assert(pre[i] == items[i]);
+        lemma_sel_nonterminals_has(pre, i);
+        let j = choose|j: int| 0 <= j < sel_nonterminals(pre).len() && #[trigger] sel_nonterminals(pre)[j] == pre[i];
+        assert(sel_nonterminals(items)[j] == sel_nonterminals(pre)[j]);
+    } else {
+        assert(sel_nonterminals(items)[sel_nonterminals(pre).len() as int] == items[i]);
+    }
+}
 
 // ---------- capitalisation rules ----------
 /// the first ASCII letter of a name, if it has one
@@ -219,6 +294,34 @@ pub open spec fn nt_defs(items: Seq<FileItem>) -> Seq<(Seq<char>, ByteIndex)>
         if item_is_nt(items.last()) { rest.push((item_name(items.last()).name@, item_name(items.last()).position)) } else { rest }
     }
 }
+pub proof fn lemma_nt_defs_take(items: Seq<FileItem>, k: int)
+    requires 0 <= k < items.len()
+    ensures nt_defs(items.take(k + 1)) == (if item_is_nt(items[k]) { nt_defs(items.take(k)).push((item_name(items[k]).name@, item_name(items[k]).position)) } else { nt_defs(items.take(k)) }),
+            nt_name_set(items.take(k + 1)) == (if item_is_nt(items[k]) { nt_name_set(items.take(k)).insert(item_name(items[k]).name@) } else { nt_name_set(items.take(k)) }),
+{
+    assert(items.take(k + 1).drop_last() =~= items.take(k));
+    assert(items.take(k + 1).last() == items[k]);
+}
+pub open spec fn is_prefix_of<A>(a: Seq<A>, b: Seq<A>) -> bool { a.len() <= b.len() && forall|j: int| 0 <= j < a.len() ==> #[trigger] a[j] == b[j] }
+pub proof fn lemma_nt_defs_prefix(items: Seq<FileItem>, k: int)
+    requires 0 <= k <= items.len()
+    ensures is_prefix_of(nt_defs(items.take(k)), nt_defs(items))
+    decreases items.len() - k
+{
+    if k == items.len() { assert(items.take(k) =~= items); }
+    else {
+        lemma_nt_defs_take(items, k); lemma_nt_defs_prefix(items, k + 1);
+        let (a, b, c) = (nt_defs(items.take(k)), nt_defs(items.take(k + 1)), nt_defs(items));
+        assert forall|j: int| 0 <= j < a.len() implies #[trigger] a[j] == c[j] by { assert(a[j] == b[j]); }
+    }
+}
+pub proof fn lemma_term_name_set_take(vs: Seq<TerminalEnumVariant>, k: int)
+    requires 0 <= k < vs.len()
+    ensures term_name_set(vs.take(k + 1)) == term_name_set(vs.take(k)).insert(vs[k].name.name@)
+{
+    assert(vs.take(k + 1).drop_last() =~= vs.take(k));
+    assert(vs.take(k + 1).last() == vs[k]);
+}
 pub open spec fn term_defs(te: TerminalEnum) -> Seq<(Seq<char>, ByteIndex)> {
     te.variants@.map_values(|v: TerminalEnumVariant| (v.name.name@, v.name.dollarless_position))
 }
@@ -303,7 +406,7 @@ pub open spec fn err_truthful(f: File, e: KikiErr) -> bool {
         KikiErr::FieldFirstLetterNotLowercase(p) =>
             exists|i: int, fs: Fieldset| 0 <= i < items.len() && #[trigger] item_has_fieldset(items[i], fs) && bad_lower_in_fieldset(fs, p),
         KikiErr::NameClash(n, p, q) =>
-            sel_terminals(items).len() == 1 && clash_in(all_defs(items, sel_terminals(items)[0]), n@, p, q),
+            clash_in(nt_defs(items), n@, p, q) || (sel_terminals(items).len() == 1 && clash_in(all_defs(items, sel_terminals(items)[0]), n@, p, q)),
         KikiErr::NonterminalEnumVariantNameClash(n, p, q) =>
             exists|i: int| 0 <= i < items.len() && (#[trigger] items[i]) is Enum && variant_name_clash(items[i]->Enum_0.variants@, n@, p, q),
         KikiErr::NonterminalEnumVariantSymbolSequenceClash(s, p, q) =>
